@@ -88,9 +88,19 @@ def make_scratch(dst, harness_files, model_hashmap=True, extra_files=None, log=N
             s2 = s
             if model_hashmap:
                 if HASHMAP_IMPORT in s2:
-                    s2 = s2.replace("\n" + HASHMAP_IMPORT, "\n" + HASHMAP_MODEL_IMPORT)
+                    # ModuleTypes' maps hold large keys/values: Vec-backed variant of the model (see model/vmodel.rs)
+                    imp = "use crate::vmodel::VecHashMap as HashMap;" if fn == "module_types.rs" else HASHMAP_MODEL_IMPORT
+                    s2 = s2.replace("\n" + HASHMAP_IMPORT, "\n" + imp)
                     nswapped += 1
-                s2 = s2.replace("std::collections::hash_map::Values", "crate::vmodel::Values")
+                s2 = s2.replace("std::collections::hash_map::Values", "crate::vmodel::VecValues" if fn == "module_types.rs" else "crate::vmodel::Values")
+                if fn != "module_types.rs" and "HashMap<TypeID, Types>" in s2:
+                    # the map handed to ModuleTypes::new must be of the same (Vec-backed) model type
+                    lines = []
+                    for ln in s2.split("\n"):
+                        if "HashMap<TypeID, Types>" in ln:
+                            ln = ln.replace("HashMap<TypeID, Types>", "crate::vmodel::VecHashMap<TypeID, Types>").replace("= HashMap::new()", "= crate::vmodel::VecHashMap::new()")
+                        lines.append(ln)
+                    s2 = "\n".join(lines)
                 # fail loudly on a HashMap path we did not rewrite (outside comments/doc tests)
                 for ln in s2.splitlines():
                     t = ln.strip()
@@ -101,11 +111,11 @@ def make_scratch(dst, harness_files, model_hashmap=True, extra_files=None, log=N
             if s2 != s:
                 open(p, "w").write(s2)
     if model_hashmap:
-        rewrites.append("`use std::collections::HashMap;` -> `use crate::vmodel::HashMap;` in %d files; hash_map::Values -> vmodel::Values" % nswapped)
+        rewrites.append("`use std::collections::HashMap;` -> `use crate::vmodel::HashMap;` in %d files (module_types.rs and every `HashMap<TypeID, Types>`: the Vec-backed variant `vmodel::VecHashMap`); hash_map::Values -> vmodel::Values" % nswapped)
         shutil.copy(os.path.join(VERIF, "model", "vmodel.rs"), os.path.join(dst, "src", "vmodel.rs"))
     else:
         with open(os.path.join(dst, "src", "vmodel.rs"), "w") as f:
-            f.write("pub use std::collections::HashMap;\npub type Values<'a, K, V> = std::collections::hash_map::Values<'a, K, V>;\n")
+            f.write("pub use std::collections::HashMap;\npub use std::collections::HashMap as VecHashMap;\npub type Values<'a, K, V> = std::collections::hash_map::Values<'a, K, V>;\npub type VecValues<'a, K, V> = std::collections::hash_map::Values<'a, K, V>;\n")
     # ---- harness modules
     khdir = os.path.join(dst, "src", "kh")
     os.makedirs(khdir)
